@@ -43,7 +43,9 @@ def make_jobs(rng, d, njobs, nfiles):
         hdr = [rng.choice(NASTY_HEADERS) for _ in range(ncols)]
         dia = {"delimiter": rng.choice([",", ";", "|"]), "quotechar": rng.choice(['"', "'"])}
         records = [hdr] + fs.records
-        path = f"f{f}.csv"
+        # the same file name in different directories: a registration is known by its content AND its source file name
+        os.makedirs(os.path.join(d, f"d{f}"), exist_ok=True)
+        path = os.path.join(f"d{f}", "data.csv")
         runner.write_csv(os.path.join(d, path), records, **dia)
         files.append((path, fs, dia, records))
     jobs = []
@@ -96,7 +98,8 @@ def _replay(args):
         elif st["op"] == "clearcache":
             cur.append({"op": "clearcache"})
         else:
-            cur.append(dict(jobs[st["j"] - 1], via=st["via"], _j=st["j"], _st=st))
+            # every other job that goes through a CsvPaths instance is a named run: its file registered under one shared name
+            cur.append(dict(jobs[st["j"] - 1], via=st["via"], named=(st["via"] == "paths" and (idx + len(cur)) % 2 == 0), _j=st["j"], _st=st))
     segs.append(cur)
     pos = 0
     for seg in segs:
